@@ -219,7 +219,9 @@ Definition slash_assets (s : st) (e : env) (q : sprm) (f : Z) : outcome (st * ex
   | Err => Err
   | Panic => Panic
   | Ok total =>
-      if total =? 0 then Panic   (* LegacyDec.Quo by zero: big.Int division by zero *)
+      (* `if !stakingInfo.StakingAndWaitUnbonding.IsPositive() { return nil, ErrValueIsNilOrZero }` (repaired: the code used
+         to divide by zero here) *)
+      if negb (0 <? total) then Err
       else
         let p := Z.min (dec_of_int 1) (dec_quo value_usd total) in
         let '(recs', exu) :=
@@ -429,7 +431,7 @@ Definition in_domain (e : env) (q : sprm) : bool :=
    - a call that reports an error (or is swallowed without reaching Slash) changes nothing;
    - an identifier that is already recorded for (operator, AVS) changes nothing (idempotence);
    - an executed slash satisfies executed_ok;
-   - a panic is outside the statement (it belongs to C11) but must not be observed with value > 0. *)
+   - a panic is never accepted (an operator without value makes Slash return an error). *)
 Definition step_ok (s : st) (e : env) (c : call) (s' : st) (r : res) : bool :=
   match call_prm e c with
   | None => st_eqb s s' && res_eqb r RZero
@@ -437,8 +439,7 @@ Definition step_ok (s : st) (e : env) (c : call) (s' : st) (r : res) : bool :=
       if has_sinfo (s_sinfos s) (q_op q) (q_avs q) (q_id q) then st_eqb s s' && negb (res_eqb r ROk)
       else match r with
            | RErr => st_eqb s s'
-           | RPanic => st_eqb s s' && priced (v_assets e) (q_op q) (s_pools s) &&
-                       (value_of (v_assets e) (q_op q) (s_pools s) =? 0)
+           | RPanic => false   (* a panic is never acceptable: the slash runs in BeginBlock *)
            | ROk => match c, q_factor q with
                     | CSlash _, Some f => in_domain e q && executed_ok s e q f s'
                     | _, _ => false
